@@ -162,6 +162,12 @@ func genJournalCase(r *Rng, tier string, odd bool) map[string]any {
 	if tier == "thorough" {
 		nFeeds = r.Range(1, 14)
 	}
+	// one history in thirty is wide: many trips, long stop lists, many feeds (sizes at which pre-sized slices of
+	// the journal builder re-allocate)
+	wide := r.P(1, 30)
+	if wide {
+		nTrips, nFeeds = r.Range(5, 12), r.Range(10, 30)
+	}
 	suffixes := []string{"_A..N", "_A..S01R", "_1..N03R", "_GS.N", "", "X", "_A+B", "_R&D..N", "_it's", "_<x>", "_a b"}
 	trips := make([]*jtrip, nTrips)
 	for i := range trips {
@@ -181,6 +187,9 @@ func genJournalCase(r *Rng, tier string, odd bool) map[string]any {
 		t.route = r.Pick([]string{"A", "1", "GS", "M", "A+", "R&D", "<1>"})
 		t.dir = r.Intn(3)
 		n := r.Range(2, 6)
+		if wide {
+			n = r.Range(8, 40)
+		}
 		for k := 0; k < n; k++ {
 			t.stops = append(t.stops, r.Pick(stopAlphabet[:6]))
 			if r.P(1, 12) {
